@@ -325,7 +325,7 @@ func main() {
 				}
 			})
 		})
-		alpha := []byte("-0a9fFgG:/ @`\x00Au \xff\n")
+		alpha := []byte("-0a9fFgG:/ @`\x00Au \xff\n1bBeE7\x80\x10\x19\x7f.,_Uu")
 		if !r.Quick() {
 			alpha = mc.AllBytes
 		}
